@@ -1,0 +1,116 @@
+//go:build verif
+
+package crawler
+
+// Contracts for the crawler work list (property C16). Comment-only.
+
+/*@
+# what a worker reports for one job: the reply map is keyed by the ID of the
+# AddrInfo it holds (queryPeer builds it that way)
+pred resultWF(r *queryResult) = r != nil && allT(p, peer.ID, imp(has(r.data, p), r.data[p] != nil && r.data[p].ID == p))
+
+func (c *DefaultCrawler) queryPeer(ctx context.Context, nextPeer peer.AddrInfo) *queryResult
+  props C16
+  modifies *
+  ensures [result-names-the-job] result != nil && result.peer == nextPeer.ID
+  ensures resultWF(result)
+  loop over peers invariant localPeers != nil && allT(p, peer.ID, imp(has(localPeers, p), localPeers[p] != nil && localPeers[p].ID == p))
+  loop 0 invariant localPeers != nil && allT(p, peer.ID, imp(has(localPeers, p), localPeers[p] != nil && localPeers[p].ID == p))
+
+# Work list. $all/$n is the sequence of every peer ever put on the dial list,
+# $idx its inverse; toDial is the not yet dispatched suffix $all[$head:].
+#  - a peer is put on the list at most once ($idx is an inverse index), so each
+#    job is dispatched at most once (assert at the send);
+#  - every peer ever seen - each seed with an address and every peer named in a
+#    successful reply - is on the list, and the loop only ends when the list is
+#    drained: every reachable peer is dispatched;
+#  - every result taken off the results channel triggers exactly one callback
+#    (when both are given) and the loop only ends when at least as many
+#    results were consumed as jobs dispatched (workers produce one result per
+#    job: funclit 0).
+func (c *DefaultCrawler) Run(ctx context.Context, startingPeers []*peer.AddrInfo, handleSuccess HandleQueryResult, handleFail HandleQueryFail)
+  props C16
+  requires all(i, 0, len(startingPeers), startingPeers[i] != nil)
+  ghostvar $all map[int]peer.ID = any
+  ghostvar $idx map[peer.ID]int = any
+  ghostvar $n int = 0
+  ghostvar $head int = 0
+  ghostvar $sent map[peer.ID]bool = empty
+  ghostvar $nrecv int = 0
+  ghostvar $nout int = 0
+  modifies *
+  chan_inv results : resultWF($msg)
+  ensures [internal-every-seen-peer-dispatched-once] $head == $n && $nrecv >= $head
+  ensures [internal-one-outcome-per-result] imp(handleSuccess != nil && handleFail != nil, $nout == $nrecv)
+  loop over startingPeers invariant $head == 0 && len(toDial) == $n && peersSeen != nil && $nrecv == 0 && $nout == 0 && paWF(peerAddrs) && peerAddrs.lk != nil
+  loop over startingPeers invariant all(i, 0, $n, toDial[i] != nil && toDial[i].ID == $all[i] && has(peersSeen, $all[i]) && $idx[$all[i]] == i)
+  loop over startingPeers invariant allT(p, peer.ID, imp(has(peersSeen, p), 0 <= $idx[p] && $idx[p] < $n && $all[$idx[p]] == p))
+  loop over startingPeers invariant allT(p, peer.ID, !$sent[p])
+  loop 2 invariant 0 <= $head && $head <= $n && len(toDial) == $n - $head && peersSeen != nil && peersQueried != nil && outstanding == $head - $nrecv && paWF(peerAddrs) && peerAddrs.lk != nil
+  loop 2 invariant all(i, 0, len(toDial), toDial[i] != nil && toDial[i].ID == $all[$head + i])
+  loop 2 invariant all(i, 0, $n, has(peersSeen, $all[i]) && $idx[$all[i]] == i)
+  loop 2 invariant allT(p, peer.ID, imp(has(peersSeen, p), 0 <= $idx[p] && $idx[p] < $n && $all[$idx[p]] == p))
+  loop 2 invariant allT(p, peer.ID, $sent[p] == (has(peersSeen, p) && $idx[p] < $head))
+  loop 2 invariant imp(handleSuccess != nil && handleFail != nil, $nout == $nrecv)
+  loop over res.data invariant 0 <= $head && $head <= $n && len(toDial) == $n - $head && peersSeen != nil && peersQueried != nil && addrsToUpdate != nil && paWF(peerAddrs) && peerAddrs.lk != nil
+  loop over res.data invariant all(i, 0, len(toDial), toDial[i] != nil && toDial[i].ID == $all[$head + i])
+  loop over res.data invariant all(i, 0, $n, has(peersSeen, $all[i]) && $idx[$all[i]] == i)
+  loop over res.data invariant allT(p, peer.ID, imp(has(peersSeen, p), 0 <= $idx[p] && $idx[p] < $n && $all[$idx[p]] == p))
+  loop over res.data invariant allT(p, peer.ID, $sent[p] == (has(peersSeen, p) && $idx[p] < $head))
+  loop over res.data invariant [every-peer-of-a-reply-is-seen] allT(p, peer.ID, imp($visited[p], has(peersSeen, p)))
+  ghost at append(toDial): $all[$n] = ai.ID; $idx[ai.ID] = $n; $n = $n + 1
+  ghost at send(jobCh): assert(!$sent[$msg]); $sent[$msg] = true; $head = $head + 1
+  ghost at recv(results): $nrecv = $nrecv + 1
+  ghost at call(handleSuccess): $nout = $nout + 1
+  ghost at call(handleFail): $nout = $nout + 1
+
+# one result per job, for the job's peer
+funclit 0 in (c *DefaultCrawler) Run(ctx context.Context, startingPeers []*peer.AddrInfo, handleSuccess HandleQueryResult, handleFail HandleQueryFail)
+  props C16
+  requires peerAddrs.lk != nil
+  ghostvar $got int = 0
+  ghostvar $put int = 0
+  chan_inv results : resultWF($msg)
+  loop 0 invariant $got == $put
+  ghost at before call(PeerInfo): $got = $got + 1
+  ghost at send(results): $put = $put + 1; assert($msg.peer == p && $got == $put)
+
+# the callbacks cannot reach Run's local work list (ASSUMED: no effect on it)
+role handleSuccess(p peer.ID, rtPeers []*peer.AddrInfo) in (c *DefaultCrawler) Run(ctx context.Context, startingPeers []*peer.AddrInfo, handleSuccess HandleQueryResult, handleFail HandleQueryFail)
+  pure
+role handleFail(p peer.ID, err error) in (c *DefaultCrawler) Run(ctx context.Context, startingPeers []*peer.AddrInfo, handleSuccess HandleQueryResult, handleFail HandleQueryFail)
+  pure
+
+# every peer of the address book has an (allocated) address map
+pred paWF(ps peerAddrs) = ps.peers != nil && allT(q, peer.ID, imp(has(ps.peers, q), ps.peers[q] != nil))
+
+func (ps peerAddrs) RemoveSourceAndAddPeers(source peer.ID, peers map[peer.ID][]ma.Multiaddr)
+  props C16
+  requires paWF(ps) && ps.lk != nil
+  modifies *ps.peers, map[string]ma.Multiaddr
+  ensures paWF(ps)
+
+func (ps peerAddrs) addPeerAddrsNoLock(p peer.ID, addrs []ma.Multiaddr)
+  props C16
+  requires paWF(ps)
+  modifies *ps.peers, map[string]ma.Multiaddr
+  ensures paWF(ps)
+  loop over addrs invariant paWF(ps) && has(ps.peers, p)
+
+func (ps peerAddrs) addAddrsNoLock(peers map[peer.ID][]ma.Multiaddr)
+  props C16
+  requires paWF(ps)
+  modifies *ps.peers, map[string]ma.Multiaddr
+  ensures paWF(ps)
+  loop over peers invariant paWF(ps)
+
+func newPeerAddrs() peerAddrs
+  props C16
+  ensures paWF(result) && result.lk != nil
+
+func (ps peerAddrs) PeerInfo(p peer.ID) peer.AddrInfo
+  props C16
+  requires ps.lk != nil
+  modifies nothing
+  ensures result.ID == p
+@*/
